@@ -13,7 +13,8 @@
 (* Rust type AST (records, field k = constructor):                         *)
 (*   [k |-> "leaf", c |-> "str"|"num"|"bool"|"unit"]                       *)
 (*   [k |-> "named", n |-> name]              project struct / enum        *)
-(*   [k |-> "mapped", n |-> name, to |-> "string"|"number"|"boolean"]      *)
+(*   [k |-> "mapped", n |-> source name, base |-> its identifier part,     *)
+(*    to |-> "string"|"number"|"boolean"]                                  *)
 (*   [k |-> "opt"|"vec"|"hset"|"bset"|"ref"|"res1"|"chan", a |-> T]        *)
 (*   [k |-> "hmap"|"bmap"|"res", a |-> T, b |-> T]                         *)
 (*   [k |-> "tup", ts |-> <<T,...>>]                                       *)
@@ -82,11 +83,22 @@ Mentions(t) ==
 \* Names that must not appear anywhere once mapped (C18)
 RECURSIVE MappedNames(_)
 MappedNames(t) ==
-    CASE t.k = "mapped" -> {t.n}
+    CASE t.k = "mapped" -> {t.base}
       [] t.k \in {"leaf", "named"} -> {}
       [] t.k \in {"opt", "vec", "hset", "bset", "ref", "res1", "chan"} -> MappedNames(t.a)
       [] t.k \in {"hmap", "bmap", "res"} -> MappedNames(t.a) \cup MappedNames(t.b)
       [] t.k = "tup" -> UNION {MappedNames(t.ts[i]) : i \in DOMAIN t.ts}
+
+\* C18: the type obtained by replacing every mapped source name by a Rust leaf of its target
+\* class -- the mapping must render T[N] exactly as the tool renders T[M].
+RECURSIVE Subst(_)
+Subst(t) ==
+    CASE t.k = "mapped" ->
+            [k |-> "leaf", c |-> (CASE t.to = "string" -> "str" [] t.to = "number" -> "num" [] t.to = "boolean" -> "bool")]
+      [] t.k \in {"leaf", "named"} -> t
+      [] t.k \in {"opt", "vec", "hset", "bset", "ref", "res1", "chan"} -> [k |-> t.k, a |-> Subst(t.a)]
+      [] t.k \in {"hmap", "bmap", "res"} -> [k |-> t.k, a |-> Subst(t.a), b |-> Subst(t.b)]
+      [] t.k = "tup" -> [k |-> "tup", ts |-> [i \in DOMAIN t.ts |-> Subst(t.ts[i])]]
 
 RECURSIVE Depth(_)
 Depth(t) ==
@@ -216,7 +228,8 @@ ShapeEq(want, got) ==
 RECURSIVE ZodMatchesPlain(_, _)
 ZodMatchesPlain(z, p) ==
     IF z.k = "optional" \/ (z.k = "nullable" /\ p.k = "nullable")
-    THEN p.k = "nullable" /\ ZodMatchesPlain(z.e, p.e)
+    THEN \/ p.k = "nullable" /\ ZodMatchesPlain(z.e, p.e)
+         \/ p.k = "null" /\ z.e.k = "null"              \* Option<()>: both values are null
     ELSE IF z.k # p.k THEN FALSE
     ELSE CASE z.k \in {"str", "num", "bool", "null"} -> TRUE
            [] z.k = "tyref" -> z.n = p.n
